@@ -231,7 +231,12 @@ def main():
                         p = subprocess.run(["lake", "env", "leanchecker"] + deps, cwd=lib.LEAN, stdout=subprocess.PIPE,
                                            stderr=subprocess.STDOUT, timeout=3000)
                     ctx.note("leanchecker rc=%d on %d modules" % (p.returncode, len(deps)))
-                    if p.returncode != 0:
+                    if p.returncode < 0 or p.returncode in (137, 143):
+                        # killed by a signal (the machine ran out of memory: leanchecker replays every module): the second
+                        # opinion is missing in this run, which is recorded; it is not a statement about the proofs
+                        ctx.note("leanchecker was killed by the system (rc=%d): no second opinion in this run" % p.returncode)
+                        ctx.assumptions.append("leanchecker did not complete in this run (killed, rc=%d)" % p.returncode)
+                    elif p.returncode != 0:
                         ctx.tie_broken("leanchecker", p.stdout.decode(errors="replace")[-800:])
                 stage(ctx, "leanchecker", _lc)
     else:
